@@ -304,7 +304,9 @@ func runC02(c *Ctx) {
 	// R7: the ntor status reports a degenerate (all-zero) Diffie-Hellman result for each exponent separately
 	if spec, err := loadSpec("ntor.json"); err == nil {
 		evalSpecFiltered(c, p, spec, "R7", "R7", "R7", func(kind, name string) bool {
-			return kind == "term" && (name == "common/ntor:ClientHandshake#0" || name == "common/ntor:ServerHandshake#0")
+			// status per exponent, and AUTH / KEY_SEED as functions of the secret input (an AUTH that does
+			// not depend on the shared secret can be forged from the public bridge line)
+			return kind == "term" && strings.HasPrefix(name, "common/ntor:") && !strings.HasPrefix(name, "common/ntor:Kdf")
 		})
 	}
 	// R8: parsing does not depend on how the response was chunked: every call re-scans from the fixed offset
